@@ -257,12 +257,21 @@ func (c *EvalCtx) eval(e Expr) Val {
 			binders = append(binders, "("+name+" "+srt+")")
 			vars[qv.Name] = Val{K: KScalar, T: t, S: name, Sort: srt}
 		}
-		body := c.with(vars).eval(e.Body)
+		cc := c.with(vars)
+		body := cc.eval(e.Body)
 		q := "exists"
 		if e.Forall {
 			q = "forall"
 		}
-		return boolVal("(" + q + " (" + strings.Join(binders, " ") + ") " + c.asBool(body) + ")")
+		bs := c.asBool(body)
+		if len(e.Triggers) > 0 {
+			var pats []string
+			for _, t := range e.Triggers {
+				pats = append(pats, cc.eval(t).S)
+			}
+			bs = "(! " + bs + " :pattern (" + strings.Join(pats, " ") + "))"
+		}
+		return boolVal("(" + q + " (" + strings.Join(binders, " ") + ") " + bs + ")")
 	case *ECall:
 		return c.evalCall(e)
 	}
